@@ -97,14 +97,7 @@ fn snap_delta<T: Snap>(t: &T, before: &Obs) -> Obs {
     let after = Snap::snap(t);
     if &after == before { l(vec![z(1)]) } else { l(vec![z(0), after]) }
 }
-pub fn run_op<T>(t: &mut T, op: &Value) -> Obs
-where T: TreeKey + TreeSerialize + TreeDeserializeOwned + TreeAny + Snap {
-    let before = match op["op"].as_str().unwrap() { "ser" | "de" | "ref" | "mut" | "rt" => Snap::snap(&*t), _ => l(vec![]) };
-    match op["op"].as_str().unwrap() {
-        "transcode" => transcode_op::<T>(op),
-        "rawtrav" => rawtrav_op::<T>(op),
-        "meta" => meta_op::<T>(),
-        "ser" => {
+fn ser_op<T: TreeSerialize + Snap>(t: &T, op: &Value, before: &Obs) -> Obs {
             let n = op["buf"].as_u64().unwrap_or(256) as usize;
             let mut buf = vec![0u8; n];
             let (r, len) = with_keys(&op["keys"], &mut |k| {
@@ -113,9 +106,9 @@ where T: TreeKey + TreeSerialize + TreeDeserializeOwned + TreeAny + Snap {
                 (r, ser.end())
             });
             let out = if r.is_ok() { l(buf[..len].iter().map(|x| z(*x)).collect()) } else { l(vec![]) };
-            l(vec![res_obs(&r), out, log_obs(), snap_delta(&*t, &before)])
-        }
-        "de" => {
+            l(vec![res_obs(&r), out, log_obs(), snap_delta(&*t, before)])
+}
+fn de_op<T: TreeDeserializeOwned + Snap>(t: &mut T, op: &Value, before: &Obs) -> Obs {
             let p = bytes(&op["payload"]);
             let (r, fin) = with_keys(&op["keys"], &mut |k| {
                 let mut de = serde_json_core::de::Deserializer::new(&p, None);
@@ -123,9 +116,9 @@ where T: TreeKey + TreeSerialize + TreeDeserializeOwned + TreeAny + Snap {
                 let fin = if r.is_ok() { de.end().is_ok() } else { true };
                 (r, fin)
             });
-            l(vec![res_obs(&r), b(fin), log_obs(), snap_delta(&*t, &before)])
-        }
-        "rt" => {
+            l(vec![res_obs(&r), b(fin), log_obs(), snap_delta(&*t, before)])
+}
+fn rt_op<T: TreeSerialize + TreeDeserializeOwned + Snap>(t: &mut T, op: &Value, before: &Obs) -> Obs {
             // C05: read by key, then write the produced bytes back by the same key (JSON or postcard);
             // the depth of an Ok is not reported by the postcard helpers: only Ok / the error is observed
             let pc = op["pc"].as_bool().unwrap_or(false);
@@ -163,9 +156,19 @@ where T: TreeKey + TreeSerialize + TreeDeserializeOwned + TreeAny + Snap {
                         }
                     }
                 });
-                l(vec![z(1), r2, b(fin), lg1, log_obs(), snap_delta(&*t, &before)])
+                l(vec![z(1), r2, b(fin), lg1, log_obs(), snap_delta(&*t, before)])
             }
-        }
+}
+pub fn run_op<T>(t: &mut T, op: &Value) -> Obs
+where T: TreeKey + TreeSerialize + TreeDeserializeOwned + TreeAny + Snap {
+    let before = match op["op"].as_str().unwrap() { "ser" | "de" | "ref" | "mut" | "rt" => Snap::snap(&*t), _ => l(vec![]) };
+    match op["op"].as_str().unwrap() {
+        "transcode" => transcode_op::<T>(op),
+        "rawtrav" => rawtrav_op::<T>(op),
+        "meta" => meta_op::<T>(),
+        "ser" => ser_op(&*t, op, &before),
+        "de" => de_op(t, op, &before),
+        "rt" => rt_op(t, op, &before),
         "ref" => {
             let r = with_keys(&op["keys"], &mut |k| { let r = t.ref_any_by_key(DynKeys(k)); tres_obs(&r, |a| any_obs(*a)) });
             l(vec![r, log_obs(), snap_delta(&*t, &before)])
@@ -193,19 +196,24 @@ where T: TreeKey + TreeSerialize + Snap {
         "transcode" => transcode_op::<T>(op),
         "rawtrav" => rawtrav_op::<T>(op),
         "meta" => meta_op::<T>(),
-        "ser" => {
-            let n = op["buf"].as_u64().unwrap_or(256) as usize;
-            let mut buf = vec![0u8; n];
-            let (r, len) = with_keys(&op["keys"], &mut |k| {
-                let mut ser = serde_json_core::ser::Serializer::new(&mut buf[..]);
-                let r = t.serialize_by_key(DynKeys(k), &mut ser);
-                (r, ser.end())
-            });
-            let out = if r.is_ok() { l(buf[..len].iter().map(|x| z(*x)).collect()) } else { l(vec![]) };
-            l(vec![res_obs(&r), out, log_obs(), snap_delta(&*t, &before)])
-        }
+        "ser" => ser_op(&*t, op, &before),
         "snap" => Snap::snap(&*t),
         other => panic!("op {other} on a read-only type"),
+    }
+}
+/// types without TreeAny (rc::Weak / sync::Weak and containers of them): everything but ref_any / mut_any
+pub fn run_op_noany<T>(t: &mut T, op: &Value) -> Obs
+where T: TreeKey + TreeSerialize + TreeDeserializeOwned + Snap {
+    let before = match op["op"].as_str().unwrap() { "ser" | "de" | "rt" => Snap::snap(&*t), _ => l(vec![]) };
+    match op["op"].as_str().unwrap() {
+        "transcode" => transcode_op::<T>(op),
+        "rawtrav" => rawtrav_op::<T>(op),
+        "meta" => meta_op::<T>(),
+        "ser" => ser_op(&*t, op, &before),
+        "de" => de_op(t, op, &before),
+        "rt" => rt_op(t, op, &before),
+        "snap" => Snap::snap(&*t),
+        other => panic!("op {other} on a type without TreeAny"),
     }
 }
 
@@ -304,6 +312,37 @@ macro_rules! impl_case {
                 }
             }
             drop(t);
+            $crate::l(vec![$crate::l(outs), $crate::l(tables)])
+        }
+    };
+}
+/// the same for types without TreeAny
+#[macro_export]
+macro_rules! impl_case_noany {
+    ($name:ident, $t:ty, $build:path, [$($d:literal),+]) => {
+        pub fn $name(case: &$crate::serde_json::Value) -> $crate::Obs {
+            let mut keep: Vec<Box<dyn std::any::Any>> = vec![];
+            let mut t: $t = $build(case["state"].as_u64().unwrap() as usize, &mut keep);
+            let mut outs = vec![];
+            let mut tables = vec![];
+            for op in case["ops"].as_array().unwrap() {
+                $crate::set_oracle_json(&op["oracle"]);
+                let r = std::panic::catch_unwind(std::panic::AssertUnwindSafe(|| {
+                    if op["op"] == "iter" {
+                        match op["d"].as_u64().unwrap() {
+                            $($d => $crate::iter_op::<$t, $d>(op),)+
+                            _ => $crate::l(vec![$crate::z(-996)]),
+                        }
+                    } else { $crate::run_op_noany(&mut t, op) }
+                }));
+                let _ = $crate::take_log();
+                outs.push(r.unwrap_or_else(|_| $crate::panic()));
+                if op["op"] == "de" {
+                    tables.push($crate::l(vec![$crate::z(outs.len() - 1), $crate::decode_op(op)]));
+                }
+            }
+            drop(t);
+            drop(keep);
             $crate::l(vec![$crate::l(outs), $crate::l(tables)])
         }
     };
